@@ -1,6 +1,6 @@
 """C05 - Concurrent pack writers and packers never lose committed data.
 
-Schedule exploration: 2-3 simulated processes (own object graphs, own branches)
+Schedule exploration: two simulated processes (own object graphs, own branches)
 share one real pack repository behind the seam; every transport operation under
 the repository directory is a scheduling point; all schedules up to a preemption
 bound are run.  Process menu: W commit, A commit that triggers autopack, P pack(),
